@@ -32,7 +32,7 @@ NOT_PROVED = [
 ]
 ASSUMPTIONS = ["scale factors are positive (C14_uniform_scale_pos / C14_gaussian_scale_pos)"]
 OPT = dict(medium_index=1.33, illum_wavelen=0.66, illum_polarization=(1, 0))
-WORK = os.path.join(os.path.dirname(os.path.dirname(os.path.dirname(os.path.abspath(__file__)))), "build", "c13")
+WORK = os.path.join(os.path.dirname(os.path.dirname(os.path.dirname(os.path.abspath(__file__)))), "build", "c13_%d" % os.getpid())
 
 
 def correspondence(ctx):
@@ -226,6 +226,26 @@ def search(ctx):
                         if not (max(abs(a - b) for a, b in zip(gr, gf)) <= 1e-7):
                             ctx.violation("C13:strategy-reuse:%s" % sname, "a strategy object that has fitted a bounded model gives %r for another (unbounded) model and data set, a fresh strategy %r (generating values %r)" % (
                                 gr, gf, [truthB['r'], truthB['x'], truthB['y'], truthB['z'], truthB['alpha']]), dict(info2, truthB=truthB, startB=startB))
+                    # --- a guess that sits exactly ON a bound of its prior (a legitimate guess), the optimum strictly inside: recovered
+                    if i % 2 == 0 or ctx.tier != "quick":
+                        for which in (("alpha-upper", "r-upper", "z-upper", "r-lower")[(i // 2) % 4],):
+                            tb = dict(truth)
+                            gb = {k: v for k, v in truth.items()}
+                            if which == "alpha-upper":
+                                tb["alpha"] = 0.9
+                            scb = Sphere(n=1.59,
+                                         r=Uniform(0.2, tb["r"] * 1.03, guess=tb["r"] * 1.03) if which == "r-upper" else (Uniform(tb["r"] * 0.97, 1.0, guess=tb["r"] * 0.97) if which == "r-lower" else Uniform(0.2, 1.0, guess=tb["r"] * 1.01)),
+                                         center=[Uniform(origin[0], origin[0] + 2, guess=tb["x"] + 0.01), Uniform(origin[1], origin[1] + 2, guess=tb["y"] - 0.01),
+                                                 Uniform(3, tb["z"] * 1.02, guess=tb["z"] * 1.02) if which == "z-upper" else Uniform(3, 12, guess=tb["z"] * 1.01)])
+                            mb_ = AlphaModel(scb, alpha=Uniform(0.5, 1.0, guess=1.0) if which == "alpha-upper" else Uniform(0.5, 1.0, guess=tb["alpha"]), noise_sd=0.05, theory=th, **OPT)
+                            datab = calc_holo(det, Sphere(n=1.59, r=tb["r"], center=(tb["x"], tb["y"], tb["z"])), theory=th, scaling=tb["alpha"], **OPT)
+                            ctx.tried("guess-on-bound", (sname, which, lens, i))
+                            rb_ = hp.fit(datab, mb_, strategy=S())
+                            gotb = [rb_.parameters[nm] for nm in names]
+                            wantb = [tb['r'], tb['x'], tb['y'], tb['z'], tb['alpha']]
+                            if not (max(abs(a - b) / max(1, abs(b)) for a, b in zip(gotb, wantb)) <= (5e-3 if lens else 1e-3)):
+                                ctx.violation("C13:recovery:guess-on-bound:%s" % sname, "guess of one parameter exactly on a bound of its prior (%s), generating value inside: the fit returns %r, generating parameters %r" % (which, gotb, wantb),
+                                              dict(info, which=which, generating=tb))
                     # --- fits on a random pixel subset are repeatable for EVERY seed the strategy accepts (0 is a seed)
                     if S is NmpfitStrategy:
                         for sd_ in (0, int(rng.integers(1, 1000))):
